@@ -41,10 +41,10 @@ TECHNIQUE = (
     "executed on the real Template and compared with CPython's own parser / eval / exec"
 )
 LEVEL_TEXT = (
-    "Every expression tree of depth <=2 over 129 node shapes (thorough: depth 3 over the operator subset, depth 4 spines) is "
+    "Every expression tree of depth <=2 over 129 node shapes (thorough: depth 3 over the operator subset, depth-4 spines) is "
     "re-emitted in five positions and compared by AST and by value with native eval; every statement block of <=2 statements "
-    "(thorough <=3, depth 3) with every string-literal form in every hole is re-margined at margins 0..12, TAB, TAB+4 in four "
-    "template positions and compared with native exec; every binder form is rendered under strict_undefined in every position "
+    "(thorough: 3 statements, depth 3) with every string-literal form in every hole is re-margined at margins 0..12, TAB, TAB+4 in "
+    "four template positions and compared with native exec; every binder form is rendered under strict_undefined in every position "
     "with exactly its free names and with each free name removed. Complete within those bounds; no sampling."
 )
 LEVEL_NOTE = (
@@ -74,16 +74,20 @@ ASSUMPTIONS = [
 ]
 BOUNDS = {
     "quick": {
-        "a": "depth 1-2 complete over 129 node shapes x 5 positions; 4 filter-call argument kinds at depth 1",
-        "b": "blocks <=2 statements depth <=2 over 11 of the 15 statement kinds; 17 of the 26 literal forms in every single hole; 27 layouts: 15 margins "
-             "(LF, code on the next line, <% %> in the body) + 2 margins x 3 other positions + 6 first-line/CRLF/TAB-unit variants",
-        "c": "31 expression binders x 20 positions, 41 statement binders x 4 positions, 10 control-line binders; inside and outside reads; every free name removed",
+        "a": "depth 1-2 complete: 129 node shapes x every shape in each of the 132 child slots, in 5 positions (<%page args>, def default, "
+             "keyword-only def default, <%block args>, filter-call argument); 4 further filter-call argument kinds (k=E, *E, **E, mixed) at depth 1",
+        "b": "blocks <=2 statements depth <=2 over 11 of the 15 statement kinds; 17 of the 26 literal forms in every single hole; 27 layouts: "
+             "15 margins (LF, code on the next line, <% %> in the body) + 2 margins x 3 other positions + 6 first-line/CRLF/TAB-unit variants",
+        "c": "32 expression binders x 21 positions (8 spellings of the nested def, 6 of the free name for the declaration-order dimension), "
+             "41 statement binders x 4 positions, 10 control-line binders; read inside, own name read outside, leaked name read outside; "
+             "full environment, then every free name removed",
     },
     "thorough": {
-        "a": "quick + depth 3 complete over the operator subset + depth-4 spines over 14 slots",
-        "b": "blocks <=2 statements: full cross 15 margins x first-line x EOL x 4 positions x units; blocks <=3 statements depth 3: quick layout set; "
-             "pairs of literal forms in 2-hole blocks",
-        "c": "as quick, plus every expression binder nested in every lambda/def/comprehension wrapper",
+        "a": "quick + depth 3 complete over 62 slots x 62 slots of the operator subset x all 129 shapes + depth-4 spines over 13 slots x 6 leaves",
+        "b": "blocks <=2 statements over all 15 kinds and 26 forms: full cross 15 margins x first-line x EOL x 4 positions + TAB/2-space units "
+             "(248 layouts); blocks of 3 statements depth <=3: every form in every hole x 12 layouts; pairs of 13 forms in two holes of blocks "
+             "<=2 statements x 23 layouts",
+        "c": "as quick, plus every expression binder nested in 7 lambda/comprehension wrappers",
     },
 }
 READY = False
@@ -542,7 +546,7 @@ def run_a(job, st):
         for path, node in X.depth2():
             a_case(path, node, st, job["seed"], seen, shard)
     elif layer == "d3":
-        ops = [k for k in X.KINDS if k[2] in X.OPERATOR_FAMILIES and k[3]]
+        ops = X.d3_ops()
         for (l1, i) in job["outer"]:
             for k2 in ops:
                 for j in range(len(k2[3])):
@@ -738,6 +742,14 @@ def layouts(tier, level):
         out.append(("\t", "\t", False, "\n", "body"))
         out.append(("", "\t", False, "\n", "ctl"))
         return out
+    if level == "min3":
+        for m in ("", " ", "    ", "       ", "            ", "\t", "\t    "):
+            out.append((m, "    ", False, "\n", "body"))
+        for pos in ("module", "ctl", "def"):
+            out.append(("    ", "    ", False, "\n", pos))
+        out.append(("    ", "    ", True, "\r\n", "body"))
+        out.append(("\t", "\t", False, "\r\n", "ctl"))
+        return out
     if level == "min":
         for m in BL.MARGINS:
             out.append((m, "    ", False, "\n", "body"))
@@ -757,6 +769,11 @@ QUICK_SKIP = {
 }
 
 
+PAIR_FORMS = {
+    "plain", "hash-in-string", "triple-dq-chars-in-sq-string", "backslash-string", "fstring-braces", "multiline-triple-dq",
+    "multiline-triple-sq", "multiline-triple-split", "multiline-triple-dq-containing-triple-sq", "backslash-newline-inside-string",
+    "comment-with-quotes", "comment-with-triple-sq", "comment-ending-in-backslash",
+}
 QUICK_SKIP_KINDS = {"call0", "tryraise", "if", "import"}
 
 
@@ -771,6 +788,7 @@ def form_assignments(nholes, mode, tier="thorough"):
                 fm[h] = f
                 yield fm
     elif mode == "pairs":
+        names = [n for n in names if n in PAIR_FORMS]
         for h1 in range(nholes):
             for h2 in range(h1 + 1, nholes):
                 for f1 in names[1:]:
@@ -1240,7 +1258,7 @@ def plan(tier, seed):
     n = core.NPROC
     jobs = []
     if tier == "thorough":
-        ops = [k for k in X.KINDS if k[2] in X.OPERATOR_FAMILIES and k[3]]
+        ops = X.d3_ops()
         outer = [(k[0], i) for k in ops for i in range(len(k[3]))]
         nj = 4 * n
         for s in range(nj):
@@ -1248,7 +1266,7 @@ def plan(tier, seed):
         for first in X.SPINE:
             jobs.append({"part": "a", "layer": "spine", "n": 4, "first": list(first), "seed": seed, "tier": tier})
         for s in range(2 * n):
-            jobs.append({"part": "b", "n": 3, "d": 3, "min_n": (2, 2), "layouts": "min", "forms": "single", "shard": s, "nshards": 2 * n, "seed": seed, "tier": tier})
+            jobs.append({"part": "b", "n": 3, "d": 3, "min_n": (2, 2), "layouts": "min3", "forms": "single", "shard": s, "nshards": 2 * n, "seed": seed, "tier": tier})
         for s in range(n):
             jobs.append({"part": "b", "n": 2, "d": 2, "layouts": "full", "forms": "single", "shard": s, "nshards": n, "seed": seed, "tier": tier})
         for s in range(n):
